@@ -84,7 +84,7 @@ const KIN: [f64; 4] = [0.0, 0.1, 5.0, 100.0];
 const BUF: [f64; 3] = [0.0, 1.0, 1000.0];
 
 fn prepared(rep: &Reporter) {
-    let seeds = rep.tier.pick(16u64, 64u64);
+    let seeds = rep.tier.pick(16u64, 6000u64);
     let mut cells: Vec<(usize, usize, usize, usize, usize, usize)> = Vec::new();
     for op in 0..4 {
         for a in 0..OBJ.len() {
@@ -289,7 +289,7 @@ fn main() {
     rep.rule("(a) each of the four reaction updates on prepared three-population states (a main population of 5 molecules with unique kinetic energies as fingerprints, optionally containing an identical twin of a reactant; reactant and product populations on top) over reactant/product objective values {-5,0,.5,3,40}^2 x kinetic energies {0,.1,5,100} x buffers {0,1,1000} x seeds; (b) every reaction update of real_cro runs observed at the step-observer hook. Per update: sum of objective values + kinetic energies + buffer unchanged within 1e-9 relative, no negative kinetic energy or buffer, one molecule record per individual with record i belonging to individual i (best memory never worse than the individual; in (a) also which slot was replaced / appended / removed and that records of uninvolved molecules did not move), stack height reduced by exactly two also when the reaction is rejected; in (a) acceptance as the energies dictate. distinct_nontrivial = distinct prepared cells + distinct template runs");
     rep.assume("finite objective values; the main population is the third population from the top when an update starts");
     prepared(&rep);
-    let cases: Vec<_> = templates::cases(false, rep.seed, rep.tier.pick(8, 30)).into_iter().filter(|c| c.tmpl == Tmpl::Cro && c.n > 0).collect();
+    let cases: Vec<_> = templates::cases(false, rep.seed, rep.tier.pick(8, 300)).into_iter().filter(|c| c.tmpl == Tmpl::Cro && c.n > 0).collect();
     let n = cases.len();
     std::thread::scope(|s| {
         for range in mv::shards(n, num_workers()) {
